@@ -31,7 +31,7 @@ INFO = {
  "c38-agent2": dict(prop="C38", file="p2panda-encryption/src/key_registry.rs", needs="two one-time bundles [valid, later-added and meanwhile expired]: the expired one is popped", checks=["C38"]),
  "c34-agent2": dict(prop="C34", file="p2panda-encryption/src/message_scheme/ratchet.rs", needs="ooo_tolerance > max_forward + 1 and several forward calls before a late generation is requested (queue truncated too short)", checks=["C34"]),
  "c40-agent2": dict(prop="C40", file="p2panda/src/streams/sync_metrics.rs", needs="a session failing after its sync phase finished (stored bytes added again on Failed)", checks=["C40"]),
- "c33-agent2": dict(prop="C33", file="p2panda-auth/src/group/crdt/state.rs", needs="see notes.md", checks=["C33"]),
+ "c33-agent2": dict(prop="C33", file="p2panda-auth/src/group/crdt/state.rs", needs="an active non-manager promoting or demoting ITSELF (the self-removal exception of remove() leaks into modify())", checks=["C33"]),
 }
 INFO.update(json.load(open(os.path.join(S, "extra_info.json"))) if os.path.exists(os.path.join(S, "extra_info.json")) else {})
 rows = []
